@@ -11,6 +11,10 @@ def target_b(x=None, src=None):
     return x
 
 
+def target_c(x=None, src=None):
+    return x
+
+
 def source(n: int = 0, fail: int = 0):
     if fail:
         raise ValueError(f"boom{n}")
@@ -28,7 +32,7 @@ def args_from_event(ctx):
 
 
 def args_from_status(ctx):
-    return {"x": ctx.arguments.kwargs.get("n"), "src": "status"}
+    return {"x": f"{ctx.arguments.kwargs.get('n')}:{ctx.status.name}", "src": "status"}
 
 
 def args_from_result(ctx):
@@ -36,7 +40,7 @@ def args_from_result(ctx):
 
 
 def args_from_exception(ctx):
-    return {"x": ctx.arguments.kwargs.get("n"), "src": "exception"}
+    return {"x": f"{ctx.arguments.kwargs.get('n')}:{ctx.exception_type}", "src": "exception"}
 
 
 def args_from_cron(ctx):
